@@ -1041,6 +1041,20 @@ func main() {
 	}
 	var bases []base
 	enumerated := int64(0)
+	// corpus: call sequences with the caller's edits of the handed-out views written out (the first is the
+	// sequence of seeded/C14-k22: hide a member in the name view and one in the value view, add a local key,
+	// then reuse the names and values)
+	corpus := []tcase{
+		{Kind: "e", Path: "ops", Names: []string{"a", "b", "c", "a", "z", "local", "n"}, Vals: []string{"5", "-", "-2", "9", "6", "50", "-"},
+			Edits: []string{"", "", "nm-a;vm-6;nm+local:100"}},
+		{Kind: "e", Path: "ops", Names: []string{"a", "b", "c", "d"}, Vals: []string{"-", "-", "-", "-"}, Edits: []string{"", "", "nm-c;vm-2"}},
+		{Kind: "e", Path: "ops", Names: []string{"a", "b", "c"}, Vals: []string{"7", "-", "-"}, Edits: []string{"nm+z:2147483647;vm+2147483647:z", "vm-8;nm-b"}},
+		{Kind: "b", Path: "ops", Names: []string{"a", "b", "a", "c"}, Vals: []string{"4294967294", "-", "3", "-"}, Edits: []string{"", "nm-a;vm-4294967295"}},
+		{Kind: "b", Path: "ops", Names: []string{"a", "b", "c"}, Vals: []string{"3", "3", "-"}, Edits: []string{"nm+c:9", "vm+3:a;vm+4:q"}},
+	}
+	for _, c := range corpus {
+		bases = append(bases, base{c: c})
+	}
 	for _, kind := range []string{"e", "b"} {
 		for _, path := range []string{"ops", "text"} {
 			ch := choices(path)
@@ -1137,20 +1151,6 @@ func main() {
 			}
 			oddCount++
 		}
-	}
-	// corpus: call sequences with the caller's edits of the handed-out views written out (the first is the
-	// sequence of seeded/C14-k22: hide a member in the name view and one in the value view, add a local key,
-	// then reuse the names and values)
-	corpus := []tcase{
-		{Kind: "e", Path: "ops", Names: []string{"a", "b", "c", "a", "z", "local", "n"}, Vals: []string{"5", "-", "-2", "9", "6", "50", "-"},
-			Edits: []string{"", "", "nm-a;vm-6;nm+local:100"}},
-		{Kind: "e", Path: "ops", Names: []string{"a", "b", "c", "d"}, Vals: []string{"-", "-", "-", "-"}, Edits: []string{"", "", "nm-c;vm-2"}},
-		{Kind: "e", Path: "ops", Names: []string{"a", "b", "c"}, Vals: []string{"7", "-", "-"}, Edits: []string{"nm+z:2147483647;vm+2147483647:z", "vm-8;nm-b"}},
-		{Kind: "b", Path: "ops", Names: []string{"a", "b", "a", "c"}, Vals: []string{"4294967294", "-", "3", "-"}, Edits: []string{"", "nm-a;vm-4294967295"}},
-		{Kind: "b", Path: "ops", Names: []string{"a", "b", "c"}, Vals: []string{"3", "3", "-"}, Edits: []string{"nm+c:9", "vm+3:a;vm+4:q"}},
-	}
-	for _, c := range corpus {
-		bases = append(bases, base{c: c})
 	}
 	// seeded random longer sequences (length 4..10), both paths
 	nRand := 20000
